@@ -997,6 +997,8 @@ func c02RunCase(co *caseOut, kind string, in c02Input) error {
 		return c02RunJump(co, in)
 	case "longgc":
 		return c02RunLongGC(co, in)
+	case "storagesync":
+		return c02RunStorageSync(co, in)
 	}
 	return fmt.Errorf("unknown case kind %q", kind)
 }
@@ -1056,6 +1058,19 @@ func runC02(args []string) error {
 			in.Ops = nil
 			if err := c02RunCase(co, "jump", in); err != nil {
 				return fmt.Errorf("racing synchronisation %d: %w", i, err)
+			}
+		}
+	}
+	// contract-storage-based synchronisation (NeoFS mode): ModeLatest and ModeGC light nodes, item batches cut at
+	// random sizes, extra flushes between deliveries; and the same with the racing flusher
+	{
+		det, races := 2, 1
+		if cf.tier == "thorough" {
+			det, races = 12, 12
+		}
+		for i := 0; i < det+races; i++ {
+			if err := c02RunCase(co, "storagesync", c02GenStorageSync(r, i, i >= det)); err != nil {
+				return fmt.Errorf("storage synchronisation %d: %w", i, err)
 			}
 		}
 	}
